@@ -250,3 +250,66 @@ Proof.
   intros st. unfold visit_fields. apply fields_with_ext. intros x Hx st'.
   apply visit_fixed_indep. exact (calc_fixed_all _ _ E x Hx).
 Qed.
+
+(* ---------------------------------------------------------------- store lookups are finite-map lookups *)
+Lemma list_eqb_eq a : forall b, list_eqb a b = true <-> a = b.
+Proof.
+  induction a as [|x a IH]; intros [|y b]; cbn [list_eqb]; split; intros H; try discriminate; try reflexivity.
+  - apply andb_prop in H as [H1 H2]. apply N.eqb_eq in H1. apply IH in H2. now subst.
+  - inversion H; subst. rewrite N.eqb_refl. now apply IH.
+Qed.
+Lemma find_unique {A} (keq : A -> A -> bool) (p : A -> bool) l :
+  nodupb keq l = true -> (forall a b, p a = true -> p b = true -> keq a b = true) ->
+  forall e, find p l = Some e -> forall e', In e' l -> p e' = true -> e' = e.
+Proof.
+  intros Hn Hk. induction l as [|x r IH]; intros e Hf e' Hin Hp; [contradiction|].
+  cbn [nodupb find] in *. apply andb_prop in Hn as [Hx Hr].
+  destruct (p x) eqn:Px.
+  - inversion Hf; subst e. destruct Hin as [->|Hin]; [reflexivity|exfalso].
+    assert (existsb (keq x) r = true) as X by (apply existsb_exists; exists e'; split; auto).
+    now rewrite X in Hx.
+  - destruct Hin as [->|Hin]; [congruence|]. now apply IH.
+Qed.
+
+Lemma shipped_lookup_pid man pid :
+  match find_pid PidDescs.pids man pid with
+  | Some e => In e PidDescs.pids /\ fst (fst e) = man /\ snd (fst e) = pid /\
+              forall e', In e' PidDescs.pids -> fst (fst e') = man -> snd (fst e') = pid -> e' = e
+  | None => forall e', In e' PidDescs.pids -> ~ (fst (fst e') = man /\ snd (fst e') = pid)
+  end.
+Proof.
+  destruct shipped_store_consistent as [Hc _]. unfold store_consistent in Hc.
+  repeat (apply andb_prop in Hc as [Hc ?]).
+  unfold find_pid. destruct (find _ PidDescs.pids) as [e|] eqn:E.
+  - pose proof (find_some _ _ E) as [Hin Hp]. apply andb_prop in Hp as [H1 H2].
+    apply N.eqb_eq in H1, H2. repeat split; try assumption.
+    intros e' Hin' M P.
+    refine (find_unique _ _ _ Hc _ e E e' Hin' _).
+    + intros a b Ha Hb. apply andb_prop in Ha as [A1 A2]. apply andb_prop in Hb as [B1 B2].
+      apply N.eqb_eq in A1, A2, B1, B2. apply andb_true_intro. split; apply N.eqb_eq; congruence.
+    + apply andb_true_intro. split; apply N.eqb_eq; assumption.
+  - intros e' Hin [M P]. pose proof (find_none _ _ E e' Hin) as X. cbn beta in X.
+    rewrite M, P, !N.eqb_refl in X. discriminate.
+Qed.
+
+Lemma shipped_lookup_name man name :
+  match find_name PidDescs.pids man name with
+  | Some e => In e PidDescs.pids /\ fst (fst e) = man /\ snd e = name /\
+              forall e', In e' PidDescs.pids -> fst (fst e') = man -> snd e' = name -> e' = e
+  | None => forall e', In e' PidDescs.pids -> ~ (fst (fst e') = man /\ snd e' = name)
+  end.
+Proof.
+  destruct shipped_store_consistent as [Hc _]. unfold store_consistent in Hc.
+  repeat (apply andb_prop in Hc as [Hc ?]).
+  unfold find_name. destruct (find _ PidDescs.pids) as [e|] eqn:E.
+  - pose proof (find_some _ _ E) as [Hin Hp]. apply andb_prop in Hp as [H2 H3].
+    apply N.eqb_eq in H2. apply list_eqb_eq in H3. repeat split; try assumption.
+    intros e' Hin' M P.
+    refine (find_unique _ _ _ H0 _ e E e' Hin' _).
+    + intros a b Ha Hb. apply andb_prop in Ha as [A1 A2]. apply andb_prop in Hb as [B1 B2].
+      apply N.eqb_eq in A1, B1. apply list_eqb_eq in A2, B2. apply andb_true_intro.
+      split; [apply N.eqb_eq|apply list_eqb_eq]; congruence.
+    + apply andb_true_intro. split; [apply N.eqb_eq|apply list_eqb_eq]; assumption.
+  - intros e' Hin [M P]. pose proof (find_none _ _ E e' Hin) as X. cbn beta in X.
+    rewrite M, N.eqb_refl in X. apply (proj2 (list_eqb_eq _ _)) in P. rewrite P in X. discriminate.
+Qed.
